@@ -54,10 +54,10 @@ CHECKS = {
    text="Exactly one defect of a known kind is planted at every element position of covering and random well-formed vectors and the returned error must be the documented sentinel / typed error (with the right abbreviation); Get/Set over the complete hostile abbreviation x value matrix. Known finding F3 matched narrowly.",
    note="expected values exactly as listed in C18; defect kinds the statement does not fix are not generated", ref="3 C18"),
  "C14": dict(tech="Go race detector (+checkptr) on a plain and on a yield-point-instrumented build of the current tree, history-independence monitor (result == quiescent baseline), string-stability and copy-independence monitors; -asan build in thorough",
-   text="Three (thorough: four) builds of the current tree run a hostile concurrent workload (few inputs, many goroutines, GOMAXPROCS grid) and sequential histories designed to expose stale pooled buffers; every result is compared with a quiescent baseline, every Vector() string is re-verified later, race reports are counted from the GORACE log. An AST pass inserts seeded Gosched/sleep yield points into a scratch copy of go-cvss to widen interleavings.",
+   text="Three (thorough: four) builds of the current tree run (0) cold concurrent starts in fresh processes judged against the spec oracles, (1) sequential histories designed to expose stale pooled state, (2) a hostile concurrent workload (few inputs, many goroutines, GOMAXPROCS grid); every result is compared with a quiescent baseline (itself cross-checked in a fresh process), every Vector() string and every object handed out by ParseVector is kept and re-verified after later calls, score-Set-score histories are judged by the oracle, race reports are counted from the GORACE log. An AST pass inserts seeded Gosched/sleep yield points into a scratch copy of go-cvss to widen interleavings.",
    note="race detector sees only executed access pairs; interleavings are explored, not enumerated; baselines after double GC stand for 'no history'", ref="3 C14"),
  "C17": dict(tech="runtime allocation counters (runtime.MemStats.Mallocs deltas) around concrete API calls in steady state, GOMAXPROCS(1), GC off",
-   text="Mean heap allocations per call are measured for ParseVector, Vector, every Get/Set arm (legal and illegal values), every scoring method, Rating and Nomenclature over inputs that make lenVec and the parsers branch (every optional metric alone x value, all, none, explicit X/ND, shuffled v3, random subsets); minimum over repetitions so a loaded machine cannot cause a false alarm.",
+   text="Mean heap allocations per call are measured for ParseVector, Vector, every Get/Set arm (legal and illegal values), every scoring method, Rating and Nomenclature over inputs that make lenVec and the parsers branch (every optional metric alone x value, every pair, all, none, explicit X/ND, shuffled v3, random subsets), both in a steady state of the same call and for a call that directly follows a different call (valid and single-defect vectors of every error kind; MemStats read in between); minimum over repetitions so a loaded machine cannot cause a false alarm.",
    note="a property of the compiled program: decided for go1.23.5 in this image, plain build", ref="3 C17"),
 }
 NOT_YET = {}
